@@ -175,3 +175,23 @@ def _subjects(ctx, hooks, f, inp):
             ctx.violation("R-CURSOR", f.relpath, f.short, "<matched text>",
                           "spans are computed on a different string than the one that is sliced", f.node.lineno,
                           inp=inp, detail=f"subject={c['subject']!r}")
+        if c.get("entry") in ("purge", "compile") or c.get("subject") is None:
+            continue
+        # every scan behind a split must see ALL matches of the instance's pattern under the library's flags: a module-arm
+        # call with other flags (e.g. the flags passed in the positional slot of `maxsplit` / `count`), another pattern,
+        # a split limit or a restricted window yields pieces that no longer tile the text once the text has more matches /
+        # spans lines
+        probs = []
+        if c.get("via") == "module":
+            if c.get("pattern") != PAT:
+                probs.append(f"pattern={c.get('pattern')!r} (expected the instance's text)")
+            if c.get("flags") != RE_FLAGS:
+                probs.append(f"flags={c.get('flags')!r} (expected MULTILINE|DOTALL)")
+        if c.get("maxsplit") not in (None, 0) or (c.get("entry") in ("sub", "subn") and c.get("count") not in (None, 0)):
+            probs.append(f"limit maxsplit={c.get('maxsplit')!r} count={c.get('count')!r} (every match must be used)")
+        if c.get("pos") not in (None, 0) or (c.get("endpos") is not None and c.get("endpos") < 2 ** 31):
+            probs.append(f"window pos={c.get('pos')!r} endpos={c.get('endpos')!r}")
+        if probs:
+            ctx.violation("R-CURSOR", f.relpath, f.short, f"{c.get('via')}.{c.get('entry')} arguments",
+                          "the scan behind the split does not run the instance's pattern over the whole text under the library's flags",
+                          f.node.lineno, inp=inp, detail="; ".join(probs))
